@@ -425,3 +425,10 @@ func LargeAllocAs(k int) {}
 
 // ClockFixed(ns): under the engine time.Now() returns this constant (ns < 0: symbolic again).
 func ClockFixed(ns int64) {}
+
+// FSWriteFile puts a file into the engine's file-system model (native: os.WriteFile).
+func FSWriteFile(path string, data []byte) {
+	if err := os.WriteFile(path, data, 0o600); err != nil {
+		panic(err)
+	}
+}
